@@ -54,7 +54,7 @@ def feature_cfgs(seed, tier):
                     "parameters": {"p": "x", "q": "%fn(\"a\", 1)% %env(\"HOME\", \"d\")% %envInt(\"N\", 3)%", "r": "%up()%", "t": "%todo(\"later\")%", "n": None, "f": 2.5},
                     "services": {"main": sv, "dep": {"value": "fmt.Value", "tags": ["tg"]}, "gh": {"constructor": "github.com/sub.NewB", "todo": False}, "td": {"todo": True}},
                     "decorators": [{"tag": "tg", "decorator": "al.Decorate", "arguments": ["%p%", 1]}, {"tag": "t2", "decorator": "Wrap", "arguments": ["@dep", "!tagged tg"]}]})
-    for lit in [cfggen.Raw(".inf"), cfggen.Raw("-.inf"), cfggen.Raw(".nan")]:
+    for lit in [cfggen.Raw(".inf"), cfggen.Raw("-.inf"), cfggen.Raw(".nan"), cfggen.Raw("1e300"), cfggen.Raw("-1e155"), cfggen.Raw("1e19"), cfggen.Raw("9.9e18"), cfggen.Raw("1.7976931348623157e308"), cfggen.Raw("5e-324"), cfggen.Raw("18446744073709551615"), cfggen.Raw("18446744073709551616")]:
         out.append({"parameters": {"p": lit}})
         out.append({"services": {"s": {"constructor": "NewA", "arguments": [lit]}}})
     for names in [{"pkg": "di", "container_type": "C", "container_constructor": "NewC"}, {"pkg": "main"}, {"container_type": "gontainer", "container_constructor": "NewIt"}]:
